@@ -601,6 +601,7 @@ class _ClientGen:
         self.mols, self.strs, self.bad_mols, self.files = mols, strs, bad_mols, files
         self.rewrites = rewrites or {}  # private path -> list of text ids that may be written to it
         self.valid_strs = set()  # ids of strings expected to be accepted
+        self.parse_bias = 0.0  # long histories: share of sources that are parses of many distinct strings
         self.mult = {}  # swarm: per-run multipliers of the op weights
         self.seed_palette = None  # C16: the few permutation seeds this run uses
         self.multi = multi
@@ -645,6 +646,9 @@ class _ClientGen:
 
     def source(self):
         r = self.rng
+        if self.parse_bias and self.strs and r.random() < self.parse_bias:
+            t = r.choice(self.strs)
+            return self._add({"op": "parse", "text": t}, "graph" if (t in self.valid_strs and r.random() < 0.2) else None)
         u = r.random()
         if u < 0.40 and self.mols:
             return self._add({"op": "read", "text": r.choice(self.mols)}, "graph")
@@ -865,10 +869,21 @@ def gen_spec(run_seed, prop, pool, hashseeds, knobs=None):
     nw = 0 if (u < 0.4 or storm and u < 0.8) else _loguniform(rng, 1, knobs.get("max_warmup", 40))
     if u > 0.96:
         # a long process history (size-bounded caches, counters): hundreds of earlier calls
-        nw = rng.randint(150, knobs.get("max_long_history", 500))
+        nw = rng.randint(300, knobs.get("max_long_history", 1200))
     warm = []
     if nw:
-        wc = _ClientGen(Random(H(run_seed, "warm")), "C14", "A", rng.sample(pool.mol_valid, min(4, len(pool.mol_valid))), [rng.choice(all_strs) for _ in range(6)] if all_strs else [], bad, [], False)
+        long_history = nw >= 150
+        if long_history:
+            # many *distinct* inputs: size-bounded caches fill up, wrap around and evict
+            w_mols = rng.sample(pool.mol_valid, min(40, len(pool.mol_valid)))
+            w_strs = rng.sample(valid_strs, min(len(valid_strs), rng.choice([140, 200, 400]))) + rng.sample(all_strs, min(10, len(all_strs)))
+        else:
+            w_mols = rng.sample(pool.mol_valid, min(4, len(pool.mol_valid)))
+            w_strs = [rng.choice(all_strs) for _ in range(6)] if all_strs else []
+        wc = _ClientGen(Random(H(run_seed, "warm")), "C14", "A", w_mols, w_strs, bad, [], False)
+        if long_history:
+            wc.mult = {"source": 12, "again": 2}
+            wc.parse_bias = rng.choice([0.9, 0.9, 0.5, 0.0])
         wc.valid_strs = set(valid_strs)
         while len(wc.ops) < nw:
             wc.step()
